@@ -100,9 +100,9 @@ def shaped_rows(interp, name, recv_term, k, arity):
 def call_symmethod(interp, st, f, args, kwargs):
     _, obj, name = f.tag
     kind = interp.method_disciplines[name]
+    ts = [interp.term(st, obj)] + [interp.term(st, a) for a in args] + [interp.term(st, kwargs[k]) for k in sorted(kwargs)]
     if kwargs:
-        raise Unsupported("keyword arguments to a symbolic method")
-    ts = [interp.term(st, obj)] + [interp.term(st, a) for a in args]
+        name = name + "_kw_" + "_".join(sorted(kwargs))
     interp.ctx.assume_note(f"method `{name}` of symbolic objects: deterministic and total ({kind})")
     st.calls.append((name, tuple(ts)))
     if kind == "PRED":
@@ -152,6 +152,19 @@ def getitem_symbolic(interp, st, obj, key):
             interp.ctx.assume_note("integer subscripts of symbolic tuples are in range")
             yield st, ("ok", V("sym", t=T.F_at(interp.term(st, obj), kt)))
             return
+    if obj.kind == "const" and isinstance(obj.d, dict) and key.kind == "sym" and key.shadow is None:
+        # a constant table indexed by a symbolic key: one path per entry (by py_eq), KeyError otherwise
+        kt = interp.term(st, key)
+        rest = st
+        for k, v in obj.d.items():
+            s1 = rest.fork()
+            s1.assume(T.F_pyeq(kt, interp.const_term(s1, k)))
+            if interp.check_sat(s1):
+                yield s1, ("ok", const(v))
+            rest.assume(z3.Not(T.F_pyeq(kt, interp.const_term(rest, k))))
+        if interp.check_sat(rest):
+            yield rest, (RAISE, interp.make_exception(rest, KeyError, []))
+        return
     if obj.kind == "sym" and obj.shadow is None:
         interp.ctx.assume_note("subscript of a symbolic mapping: total deterministic lookup (KeyError path not modelled)")
         yield st, ("ok", V("sym", t=T.F_lookup(interp.term(st, obj), interp.term(st, key))))
@@ -414,6 +427,19 @@ def getitem(interp: Interp, st: St, obj: V, key: V):
                     else:
                         raise Unsupported("possibly out-of-range / negative index on heap list")
                 return
+        shadowed_key = key.shadow is not None and key.root is not None and frozen_const(interp, st, obj) is not None
+        if isinstance(h, HDict) and not shadowed_key and (
+                h.pairs is None or key.kind != "const" or not all(kk.kind == "const" for kk, _ in h.pairs)):
+            if h.pairs is not None:
+                to_symbolic_dict(interp, st, h)
+            kt = interp.term(st, key)
+            interp.ctx.assume_note("keys looked up in a dict are hashable")
+            for s, hb in interp.fork_on(st, z3.Select(h.has, kt)):
+                if hb:
+                    yield s, ("ok", V("sym", t=z3.Select(s.heap[obj.d].vals, kt)))
+                else:
+                    yield s, (RAISE, interp.make_exception(s, KeyError, []))
+            return
         if isinstance(h, HDict) and h.pairs is not None and key.kind == "const":
             for kk, vv in h.pairs:
                 if kk.kind == "const" and kk.d == key.d:
@@ -733,7 +759,7 @@ def contains(interp: Interp, st: St, x: V, coll: V, negate=False):
             fn = (lambda a, b: a not in b) if negate else (lambda a, b: a in b)
             yield from interp.shadow_apply(st, fn, [x, const(fo)], name="contains")
             return
-    if coll.kind == "tuple" or (coll.kind == "const" and isinstance(coll.d, (tuple, list, set, frozenset))):
+    if coll.kind == "tuple" or (coll.kind == "const" and isinstance(coll.d, (tuple, list, set, frozenset, dict))):
         items = coll.d if coll.kind == "tuple" else [const(i) for i in coll.d]
         if coll.kind == "const" and isinstance(coll.d, (set, frozenset)):
             interp.ctx.assume_note("membership of a sub-loader's result in a constant set assumes the result is hashable")
@@ -1281,3 +1307,37 @@ def b_islice(interp, st, args, kwargs):
         ni.len_term = it.len_term
         ni.clamp = True
         yield s, ("ok", V("iter", ni))
+
+
+import functools as _functools
+
+
+class _MemoDecorator:
+    def __repr__(self):
+        return "<memoizing decorator>"
+
+
+_MEMO = _MemoDecorator()
+
+
+def _h_lru_cache(interp, st, args, kwargs):
+    if len(args) == 1 and args[0].kind == "fn" and not kwargs:
+        yield from _h_memo_apply(interp, st, args, kwargs)
+        return
+    yield st, ("ok", const(_MEMO))
+
+
+def _h_memo_apply(interp, st, args, kwargs):
+    """functools.lru_cache / cache around a closure: the same result OBJECT is handed out for equal arguments"""
+    (fn,) = args
+    if fn.kind != "fn":
+        raise Unsupported("memoization of a non-closure")
+    v = V("fn", fn.d)
+    v.tag = ("memoized",)
+    interp.ctx.assume_note("functools.lru_cache/cache: results are shared between calls with equal arguments")
+    yield st, ("ok", v)
+
+
+HANDLERS[_functools.lru_cache] = _h_lru_cache
+HANDLERS[_functools.cache] = _h_memo_apply
+HANDLERS[_MEMO] = _h_memo_apply
